@@ -67,7 +67,9 @@ structure GenBlock where
 
 /-- `packet_type(packet_type = block_type, data = slice, crc32 = …)`: the constructor asserts that the
 slice has the number of octets of the announced type, keeps `dbsn = 0` (never passed) and, because the
-`crc9` argument is 0, stores the CRC-9 it calculates over (data, dbsn, crc32 argument) -/
+`crc9` argument is 0, stores the CRC-9 it calculates over (data, dbsn, crc32 argument).
+(An empty slice would pass the assert and make an `Undefined`-typed block; the generator never cuts one —
+`slice_length_inner` / `slice_length_last` — and the model answers `ValueError` there instead.) -/
 def mkBlock (C : Crc) (r : Rate) (t : PType) (data : Bytes) (crc32 : Nat) : Except Err GenBlock :=
   if data.length != 0 && data.length != dataOctets r t then .error .assertion else
   -- `Rate*DataTypes(len(data))` raises ValueError for a length that is no member
